@@ -47,16 +47,27 @@ FormShock(id, TP, U, s, t, k, a) == IF a > Len(U) THEN RZero
     ELSE RAdd(IF s - (a - 1) >= t THEN RDot(U[a], RCol(RMatMul(TP[s - (a - 1) - t], GR0(id)), k)) ELSE RZero, FormShock(id, TP, U, s, t, k, a + 1))
 HW(tw, k) == LET S == {i \in 1..Len(tw) : tw[i][2] = k} IN IF S = {} THEN RZero ELSE tw[CHOOSE i \in S : TRUE][1]
 
-\* sd, sdw: VARIANCES of the transition shocks (vector) and of the measurement shocks (common value)
+\* sd: VARIANCES of the transition shocks, [base |-> vector (the model's parameters: they also determine the unconditional start),
+\* extra |-> [t -> vector]] where extra[t] is added in period t (time-varying standard deviations supplied as data); sdw: variance of the
+\* measurement shocks (common value).  A period with a larger shock variance adds, to the covariance of two state-type variables, the
+\* product of their loadings on that period's shock times the extra variance.
+SdAt(sd, t, k) == RAdd(sd.base[k], sd.extra[t][k])
+RECURSIVE ExtraSS(_, _, _, _, _, _, _)
+ExtraSS(id, TP, sd, v1, v2, r, k) ==
+    IF r > TK THEN RZero
+    ELSE IF k > Len(sd.base) THEN ExtraSS(id, TP, sd, v1, v2, r + 1, 1)
+    ELSE RAdd(IF sd.extra[r][k] = RZero THEN RZero
+              ELSE RMul(RMul(FormShock(id, TP, Form(id, v1), v1[2], r, k, 1), FormShock(id, TP, Form(id, v2), v2[2], r, k, 1)), sd.extra[r][k]),
+              ExtraSS(id, TP, sd, v1, v2, r, k + 1))
 Cov(id, Cs, TP, sd, sdw, v1, v2) ==
     LET st1 == v1[1] \in {"X", "Y"} st2 == v2[1] \in {"X", "Y"} IN
-    IF st1 /\ st2 THEN RAdd(QuadSum(Cs, Form(id, v1), Form(id, v2), v1[2] - v2[2], 1, 1),
+    IF st1 /\ st2 THEN RAdd(RAdd(QuadSum(Cs, Form(id, v1), Form(id, v2), v1[2] - v2[2], 1, 1), ExtraSS(id, TP, sd, v1, v2, 1, 1)),
                             IF v1[2] = v2[2] THEN ShockCovV(Tw(id, v1), Tw(id, v2), sdw, 1) ELSE RZero)
-    ELSE IF st1 /\ v2[1] = "E" THEN RMul(FormShock(id, TP, Form(id, v1), v1[2], v2[2], v2[3], 1), sd[v2[3]])
-    ELSE IF st2 /\ v1[1] = "E" THEN RMul(FormShock(id, TP, Form(id, v2), v2[2], v1[2], v1[3], 1), sd[v1[3]])
+    ELSE IF st1 /\ v2[1] = "E" THEN RMul(FormShock(id, TP, Form(id, v1), v1[2], v2[2], v2[3], 1), SdAt(sd, v2[2], v2[3]))
+    ELSE IF st2 /\ v1[1] = "E" THEN RMul(FormShock(id, TP, Form(id, v2), v2[2], v1[2], v1[3], 1), SdAt(sd, v1[2], v1[3]))
     ELSE IF st1 /\ v2[1] = "W" THEN (IF v1[2] = v2[2] THEN RMul(HW(Tw(id, v1), v2[3]), sdw) ELSE RZero)
     ELSE IF st2 /\ v1[1] = "W" THEN (IF v1[2] = v2[2] THEN RMul(HW(Tw(id, v2), v1[3]), sdw) ELSE RZero)
-    ELSE IF v1 = v2 THEN (IF v1[1] = "E" THEN sd[v1[3]] ELSE sdw)
+    ELSE IF v1 = v2 THEN (IF v1[1] = "E" THEN SdAt(sd, v1[2], v1[3]) ELSE sdw)
     ELSE RZero
 
 \* observations: sequence of <<t, i>> with data, ordered by period
@@ -115,17 +126,24 @@ DeepData(id) == IF NY(id) = 1
                 THEN {Masked(v, m) : v \in { << <<3>>, <<5>>, <<2>> >>, << <<1>>, <<CNeg1>>, <<2>> >> }, m \in [1..3 -> [1..1 -> BOOLEAN]]}
                 ELSE {Masked(<< <<1, 3>>, <<CNeg1, 2>>, <<0, 4>> >>, m) : m \in {mm \in [1..3 -> [1..2 -> BOOLEAN]] :
                                                                              Cardinality({c \in (1..3) \X (1..2) : mm[c[1]][c[2]]}) <= 4}}
-Init == sc \in UNION {{[id |-> id, data |-> d, sd |-> sd, sdw |-> sw] : d \in (IF Deep THEN DeepData(id) ELSE DataSets(id)),
-                          sd \in {[i \in 1..NE(id) |-> R(3)], [i \in 1..NE(id) |-> R(12)]}, sw \in {R(1), R(4)}} : id \in Ids}
+\* time-varying standard deviations: extra variance of the first shock in period 2 (and, thorough tier, in periods 1 and 3)
+NoExtra(id) == [t \in 1..TK |-> [k \in 1..NE(id) |-> RZero]]
+Extras(id) == {NoExtra(id), [NoExtra(id) EXCEPT ![2][1] = R(1)]}
+              \cup (IF Deep THEN {[NoExtra(id) EXCEPT ![1][1] = R(1), ![3][NE(id)] = R(1)]} ELSE {})
+Init == sc \in UNION {{[id |-> id, data |-> d, sd |-> sd, sdw |-> sw, dsd |-> x] : d \in (IF Deep THEN DeepData(id) ELSE DataSets(id)),
+                          sd \in {[i \in 1..NE(id) |-> R(3)], [i \in 1..NE(id) |-> R(12)]}, sw \in {R(1), R(4)},
+                          x \in Extras(id)} : id \in Ids}
+        /\ (sc.dsd # NoExtra(sc.id) => (sc.sd[1] = R(3) /\ sc.sdw = R(1)))
         /\ out = <<>> /\ done = FALSE
+SDR(s) == [base |-> s.sd, extra |-> s.dsd]
 Compute == /\ ~done /\ done' = TRUE /\ UNCHANGED sc
            /\ \E ly \in {LyapV(sc.id, sc.sd)} : \E Cs \in {CTable(ly)} : \E TP \in {[k \in 0..TK |-> RMatPow(GModel(sc.id).T, k)]} :
                 out' = [ok |-> ly.ok /\ LyapOk(ly), src |-> Source(GModel(sc.id)),
                         vars |-> GModel(sc.id).vars, mvars |-> GModel(sc.id).mvars, shocks |-> GModel(sc.id).shocks, mshocks |-> GModel(sc.id).mshocks,
-                        predict |-> [t \in 1..TK |-> Moments(sc.id, Cs, TP, sc.sd, sc.sdw, sc.data, t - 1, t)],
-                        update  |-> [t \in 1..TK |-> Moments(sc.id, Cs, TP, sc.sd, sc.sdw, sc.data, t, t)],
-                        smooth  |-> [t \in 1..TK |-> Moments(sc.id, Cs, TP, sc.sd, sc.sdw, sc.data, TK, t)],
-                        pe |-> [t \in 1..TK |-> PredErr(sc.id, Cs, TP, sc.sd, sc.sdw, sc.data, t)],
+                        predict |-> [t \in 1..TK |-> Moments(sc.id, Cs, TP, SDR(sc), sc.sdw, sc.data, t - 1, t)],
+                        update  |-> [t \in 1..TK |-> Moments(sc.id, Cs, TP, SDR(sc), sc.sdw, sc.data, t, t)],
+                        smooth  |-> [t \in 1..TK |-> Moments(sc.id, Cs, TP, SDR(sc), sc.sdw, sc.data, TK, t)],
+                        pe |-> [t \in 1..TK |-> PredErr(sc.id, Cs, TP, SDR(sc), sc.sdw, sc.data, t)],
                         meq |-> GModel(sc.id).meqs, teq |-> GModel(sc.id).eqs]
 \* clause-only scenarios (no exact moments are computed): a unit-root model (diffuse initial condition, data ending before the
 \* filter span ends) and a forward-looking model with anticipated shocks supplied as data; the harness evaluates the C08 clauses
